@@ -13,6 +13,8 @@
 #include <unordered_map>
 #include <algorithm>
 #include <fcntl.h>
+#include <setjmp.h>
+#include <sys/stat.h>
 
 namespace PPL = Parma_Polyhedra_Library;
 using namespace PPL;
@@ -146,6 +148,13 @@ static std::string observe(const C_Polyhedron& p, int ob) {
   catch (const std::exception& e) { return std::string("EXC:") + e.what(); }
 }
 
+// long answers are stored as a 64-bit FNV-1a hash (both sides apply the same function)
+static std::string canon(const std::string& a) {
+  if (a.size() <= 24) return a;
+  unsigned long long hsh = 1469598103934665603ULL;
+  for (size_t i = 0; i < a.size(); ++i) { hsh ^= (unsigned char)a[i]; hsh *= 1099511628211ULL; }
+  char b[32]; snprintf(b, sizeof b, "#%016llx", hsh); return b;
+}
 static std::string hist_id(const std::vector<int>& h) { std::string s; for (size_t i = 0; i < h.size(); ++i) { if (i) s += ","; s += std::to_string(h[i]); } return s; }
 static std::string hist_json(const std::vector<int>& h) {
   std::vector<std::string> v; for (size_t i = 0; i < h.size(); ++i) v.push_back(vf::jstr(MENU[h[i]].name));
@@ -173,16 +182,41 @@ static std::string op_kind(const std::string& n) {
 }
 static std::string PENDING_BEFORE = "none";   // lazy state of the receiver before the failing operation (read only)
 
-static void check_ok_after_overflow(C_Polyhedron& p, const std::vector<int>& h) {
-  bool ok = false; std::string how = "OK() returned false";
-  try { ok = p.OK(); } catch (const std::exception& e) { ok = false; how = std::string("OK() threw ") + e.what(); }
+// OK() and the destructor are run on objects that an exception may have left in any state: a crash inside them is
+// a verdict on the object ("invalid object fragments"), not a reason to lose the worker
+static sigjmp_buf JB; static volatile sig_atomic_t JB_ON = 0;
+static void guard_handler(int sig) { if (JB_ON) { JB_ON = 0; siglongjmp(JB, sig); } signal(sig, SIG_DFL); raise(sig); }
+static void install_guard() { signal(SIGSEGV, guard_handler); signal(SIGBUS, guard_handler); signal(SIGABRT, guard_handler); signal(SIGFPE, guard_handler); }
+
+// returns false when the object must not be touched any more (OK() or the destructor crashed)
+static bool check_ok_after_overflow(C_Polyhedron* p, const std::vector<int>& h) {
+  bool ok = false; std::string how = "OK() returned false"; const char* clause = "overflow:object-not-OK-after-overflow_error";
+  bool usable = true;
+  int sig = sigsetjmp(JB, 1);
+  if (sig == 0) {
+    JB_ON = 1;
+    try { ok = p->OK(); } catch (const std::exception& e) { ok = false; how = std::string("OK() threw ") + e.what(); }
+    JB_ON = 0;
+  } else { ok = false; usable = false; how = std::string("OK() crashed: ") + vf::signame(sig); clause = "overflow:OK()-crashes-after-overflow_error"; install_guard(); }
   if (!ok) {
     vf::count(CNT_NOT_OK);
     // finding group: where the exception interrupted the library (a predicate over the history, evaluated here)
     std::string kind = op_kind(MENU[h.back()].name), trig = PENDING_BEFORE;
     if (trig == "none" && (kind == "affine_image" || kind == "affine_preimage")) trig = "in_place_affine_transformation_of_minimized_receiver";
-    if (vf::violcap().admit("notok" + trig)) vf::report_violation("C_Polyhedron(checked-integer build)", "overflow:object-not-OK-after-overflow_error", trig,
+    if (vf::violcap().admit(std::string(clause) + trig)) vf::report_violation("C_Polyhedron(checked-integer build)", clause, trig,
                          J().raw("history", hist_json(h)).str("failing_operation", kind).done(), how, "object still OK() after std::overflow_error", "build " + LABEL);
+  }
+  return usable;
+}
+// destroys *p; a crash in the destructor is reported (the storage is then leaked)
+static void guarded_delete(C_Polyhedron* p, const std::vector<int>& h, bool after_exception) {
+  if (!after_exception) { delete p; return; }
+  int sig = sigsetjmp(JB, 1);
+  if (sig == 0) { JB_ON = 1; delete p; JB_ON = 0; }
+  else {
+    install_guard();
+    if (vf::violcap().admit("dtor")) vf::report_violation("C_Polyhedron(checked-integer build)", "overflow:destructor-crashes-after-overflow_error", PENDING_BEFORE,
+        J().raw("history", hist_json(h)).done(), std::string("destructor crashed: ") + vf::signame(sig), "object destructible after std::overflow_error", "build " + LABEL);
   }
 }
 
@@ -205,7 +239,7 @@ static void finish_history(const C_Polyhedron& p, const std::vector<int>& h) {
     vf::count(CNT_OBS);
     if (EMIT) {
       if (a == "OVERFLOW") vf::count(CNT_OBS_OVF);
-      OUTBUF += id + "\t" + OBS[ob].name + "\t" + a + "\n";
+      OUTBUF += id + "\t" + OBS[ob].name + "\t" + canon(a) + "\n";
     } else {
       for (size_t b = 0; b < ANS.size(); ++b) {
         std::string theirs;
@@ -224,7 +258,7 @@ static void finish_history(const C_Polyhedron& p, const std::vector<int>& h) {
         }
         vf::count(CNT_CMP);
         if (it->second == "OVERFLOW") { vf::count(CNT_CMP_SKIP_OVF); continue; }
-        if (it->second != a) {
+        if (it->second != canon(a)) {
           std::string site = "C_Polyhedron::" + OBS[ob].name.substr(0, OBS[ob].name.find('('));
           if (vf::violcap().admit(site + LABELS[b])) vf::report_violation(site, "bounded:answer-differs-from-mpz-build", "none",
               J().raw("history", hist_json(h)).str("observer", OBS[ob].name).str("bounded_build", LABELS[b]).done(), it->second, a, "");
@@ -233,10 +267,11 @@ static void finish_history(const C_Polyhedron& p, const std::vector<int>& h) {
     }
   }
 }
-static void failed_history(C_Polyhedron& p, const std::vector<int>& h, const std::string& tag) {
+static bool failed_history(C_Polyhedron* p, const std::vector<int>& h, const std::string& tag) {
   std::string id = hist_id(h);
+  bool usable = true;
   if (EMIT) {
-    if (tag == "OVERFLOW") { vf::count(CNT_HIST_OVF); check_ok_after_overflow(p, h); }
+    if (tag == "OVERFLOW") { vf::count(CNT_HIST_OVF); usable = check_ok_after_overflow(p, h); }
     else vf::count(CNT_OTHER_EXC);
     OUTBUF += id + "\t*\t" + tag + "\n";
   } else {
@@ -250,18 +285,20 @@ static void failed_history(C_Polyhedron& p, const std::vector<int>& h, const std
           hist_json(h), LABELS[b] + " build: " + (covered ? theirs : std::string("completes")), "mpz build: " + tag, "");
     }
   }
+  return usable;
 }
 
 static int DEPTH = 3;
 static void extend(const C_Polyhedron& p, std::vector<int>& h) {
   if ((int)h.size() >= DEPTH) return;
   for (size_t op = 0; op < MENU.size(); ++op) {
-    C_Polyhedron q(p);
+    C_Polyhedron* q = new C_Polyhedron(p);
     h.push_back((int)op);
     vf::count(CNT_HIST);
-    PENDING_BEFORE = q.has_pending_generators() ? "receiver_has_pending_generators" : q.has_pending_constraints() ? "receiver_has_pending_constraints" : "none";
-    std::string t = apply(q, (int)op);
-    if (t.empty()) { finish_history(q, h); extend(q, h); } else failed_history(q, h, t);
+    PENDING_BEFORE = q->has_pending_generators() ? "receiver_has_pending_generators" : q->has_pending_constraints() ? "receiver_has_pending_constraints" : "none";
+    std::string t = apply(*q, (int)op);
+    if (t.empty()) { finish_history(*q, h); extend(*q, h); delete q; }
+    else if (failed_history(q, h, t)) guarded_delete(q, h, true);
     h.pop_back();
   }
 }
@@ -276,40 +313,55 @@ int main(int argc, char** argv) {
   std::string ans = ARGS.opt("--ans", "c11_answers.txt");
   build_menu(); build_observers();
   const long long M = (long long)MENU.size();
-  if (EMIT) { FILE* f = fopen(ans.c_str(), "w"); if (f) fclose(f); }
+  std::vector<std::string> DIRS;
+  if (EMIT) { mkdir(ans.c_str(), 0777); DIRS.push_back(ans); }
   else {
     std::stringstream fs(ans), ls(ARGS.opt("--labels", "")); std::string fn, lb;
     while (std::getline(fs, fn, ',')) {
-      std::getline(ls, lb, ','); LABELS.push_back(lb.empty() ? fn : lb);
+      std::getline(ls, lb, ','); LABELS.push_back(lb.empty() ? fn : lb); DIRS.push_back(fn);
       ANS.push_back(std::unordered_map<std::string, std::string>());
-      std::ifstream in(fn.c_str()); std::string line; long long n = 0;
-      while (std::getline(in, line)) {
-        size_t p2 = line.rfind('\t'); if (p2 == std::string::npos) continue;
-        ANS.back()[line.substr(0, p2)] = line.substr(p2 + 1); ++n;
-      }
-      if (n == 0) { vf::sink().line(J().str("t", "error").str("msg", "answer file " + fn + " of the bounded build is missing or empty").done()); return 0; }
+      std::ifstream probe((fn + "/0.txt").c_str());
+      if (!probe) { vf::sink().line(J().str("t", "error").str("msg", "answer directory " + fn + " of the bounded build is missing or empty").done()); return 0; }
     }
   }
   // items: (first op, second op or none)
   const long long N = M * (M + 1);
-  vf::Pool::Fn fn = [&](long long item, long long) {
+  vf::Pool::Fn fn = [&](long long item, long long sub_start) {
+    if (sub_start > 0 && vf::pool().only_sub < 0) return;   // the item is one sub-step: do not repeat it after a crash
     int i1 = (int)(item / (M + 1)), i2 = (int)(item % (M + 1)) - 1;
     if (DEPTH < 2 && i2 >= 0) return;
     vf::pool().step(0);
+    install_guard();
     OUTBUF.clear();
-    C_Polyhedron p(2);
+    if (!EMIT)    // the bounded builds' answers for exactly this item
+      for (size_t b = 0; b < ANS.size(); ++b) {
+        ANS[b].clear();
+        std::ifstream in((DIRS[b] + "/" + std::to_string(item) + ".txt").c_str()); std::string line;
+        if (!in) { vf::sink().line(J().str("t", "error").str("msg", "no answers of build " + LABELS[b] + " for item " + std::to_string(item)).done()); return; }
+        while (std::getline(in, line)) { size_t p2 = line.rfind('\t'); if (p2 != std::string::npos) ANS[b][line.substr(0, p2)] = line.substr(p2 + 1); }
+      }
+    C_Polyhedron* p = new C_Polyhedron(2);
     std::vector<int> h; h.push_back(i1);
-    std::string t = apply(p, i1);
-    if (i2 < 0) { vf::count(CNT_HIST); if (t.empty()) finish_history(p, h); else failed_history(p, h, t); }
+    PENDING_BEFORE = "none";
+    std::string t = apply(*p, i1);
+    if (i2 < 0) {
+      vf::count(CNT_HIST);
+      if (t.empty()) { finish_history(*p, h); delete p; } else if (failed_history(p, h, t)) guarded_delete(p, h, true);
+    }
     else if (t.empty()) {
       h.push_back(i2); vf::count(CNT_HIST);
-      C_Polyhedron q(p);
-      PENDING_BEFORE = q.has_pending_generators() ? "receiver_has_pending_generators" : q.has_pending_constraints() ? "receiver_has_pending_constraints" : "none";
-      std::string t2 = apply(q, i2);
-      if (t2.empty()) { finish_history(q, h); extend(q, h); } else failed_history(q, h, t2);
+      C_Polyhedron* q = new C_Polyhedron(*p);
+      PENDING_BEFORE = q->has_pending_generators() ? "receiver_has_pending_generators" : q->has_pending_constraints() ? "receiver_has_pending_constraints" : "none";
+      std::string t2 = apply(*q, i2);
+      if (t2.empty()) { finish_history(*q, h); extend(*q, h); delete q; } else if (failed_history(q, h, t2)) guarded_delete(q, h, true);
+      delete p;
     }
-    if (EMIT && !OUTBUF.empty()) {
-      int fd = open(ans.c_str(), O_WRONLY | O_APPEND);
+    else {   // the first operation failed: recorded by item (i1, none); repeat the record so that this item's file is self-contained
+      if (EMIT) OUTBUF += hist_id(h) + "\t*\t" + t + "\n";
+      guarded_delete(p, h, true);
+    }
+    if (EMIT) {
+      int fd = open((ans + "/" + std::to_string(item) + ".txt").c_str(), O_WRONLY | O_CREAT | O_TRUNC, 0666);
       if (fd < 0 || write(fd, OUTBUF.data(), OUTBUF.size()) != (ssize_t)OUTBUF.size()) { perror("answers"); _exit(3); }
       close(fd);
     }
@@ -322,6 +374,7 @@ int main(int argc, char** argv) {
                          J().raw("history_prefix", hist_json(h)).str("build", EMIT ? LABEL : "mpz").done(), vf::signame(sig), "normal return or std::overflow_error", "");
   };
   vf::limit_memory(4ULL << 30);
+  if (!ARGS.opt("--only-item", "").empty()) { fn(atoll(ARGS.opt("--only-item", "0").c_str()), 0); return 0; }   // debugging aid: in-process
   vf::pool().run(N, ARGS.jobs, fn, cf, ARGS, 120);
   bool complete = vf::counter(vf::CNT_SKIPPED) == 0;
   J extra;
